@@ -129,6 +129,7 @@ PLANS = {
                   ex("spni3", "spni", 3, 3, kinds=["iter"], modes=["E"]), ex("gapTi", "gapTi", 1, 3, kinds=["iter"], modes=["E"]),
                   ex("progTk", "progT", 1, 3, kinds=["stream", "io", "mstream", "wctx", "array"], modes=["E"]),
                   ex("spnr2k", "spnr", 2, 3, kinds=["mapped", "slice", "array"], modes=["E"]),
+                  ex("txtrk", "txtr", 1, 2, alphabet=["0", "9", "f", "g", "A", "z"], kinds=["str", "bytes"], invariants=INV_TEXT, modes=["E"]),
                   {"kind": "inputs", "name": "kinds", "ops": 4},
                   rec("longS", "seek", 24, 7, 1100, minlen=500, kinds=["stream", "bstream", "mstream"]),
                   rec("pegRk", "peg", 2500, 8, 8, kinds=ALL_KINDS), rec("spngRk", "spng", 1500, 8, 8, kinds=["mapped", "mstream", "stream", "wctx", "mapspan", "io"])],
